@@ -588,6 +588,7 @@ class Chemical:
                         model_handle.method_P = method
                 else:
                     obj.method_P = method
+        self.reset_free_energies()
         
     def use_coolprop_free_energies(self):
         setattr = object.__setattr__
